@@ -188,6 +188,46 @@ package core
 //@   pure
 
 // ---------------------------------------------------------------------------------------------
+// Configuration layering (C39): the order in which files are applied.
+//
+// Reading one file is opaque here (gcfg does the merging); what is proved is the ORDER of the reads.
+//@ assume func readConfigFile
+//@ assume func readConfigFileOnly
+//
+// lastread is a ghost variable holding the file name passed to the most recent read.
+// Each profile file <f>.<p_j> is read immediately after <f> (j = 0) or after <f>.<p_(j-1)>: profile files
+// follow the file they belong to, in profile order, before the next plain file.
+//@ func ReadConfigFilesOnly
+//@   callsite readConfigFileOnly track lastread string: arg_filename
+//@   invariant "range profiles" in_group [C39]: lastread == ite(idx == 0, filename, filename + "." + profiles[idx - 1])
+//@   callsite readConfigFileOnly order [C39]: arg_filename == filename || (exists j int :: 0 <= j && j < len(profiles) && \
+//@      arg_filename == filename + "." + profiles[j] && lastread == ite(j == 0, filename, filename + "." + profiles[j - 1]))
+//
+//@ func ReadConfigFiles
+//@   opt panics=allowed
+//@   opt nopanic=off
+//@   callsite readConfigFile track lastread string: arg_filename
+//@   invariant "range profiles" in_group [C39]: lastread == ite(idx == 0, filename, filename + "." + profiles[idx - 1])
+//@   callsite readConfigFile order [C39]: arg_filename == filename || (exists j int :: 0 <= j && j < len(profiles) && \
+//@      arg_filename == filename + "." + profiles[j] && lastread == ite(j == 0, filename, filename + "." + profiles[j - 1]))
+//
+// The default file list ends with the repo config, then the per-architecture config, then the local config
+// (lowest to highest priority).
+//@ func defaultConfigFiles
+//@   ensures repo_arch_local [C39]: len(result) >= 3 && result[len(result) - 3] == filepath.Join(RepoRoot, ConfigFileName) && \
+//@      result[len(result) - 2] == filepath.Join(RepoRoot, ArchConfigFileName) && \
+//@      result[len(result) - 1] == filepath.Join(RepoRoot, LocalConfigFileName)
+//@   ensures globals_first [C39]: forall i int :: 0 <= i && i < len(defaultGlobalConfigFiles()) ==> result[i] == defaultGlobalConfigFiles()[i]
+//@ assume func defaultGlobalConfigFiles
+//@   pure
+//
+// Documented list defaults apply only when no source set the option.
+//@ func setDefault
+//@   requires conf != nil
+//@   ensures unset_gets_default [C39]: len(old(deref(conf))) == 0 ==> deref(conf) == def
+//@   ensures set_is_kept [C39]: len(old(deref(conf))) != 0 ==> deref(conf) == old(deref(conf))
+
+// ---------------------------------------------------------------------------------------------
 // Test outcome summaries (C26)
 //
 // An execution passed if it has no failure, error or skip; a case succeeded if some execution passed
